@@ -14,7 +14,7 @@ THEOREMS = [
     ('EAO.Properties.C09', 'EAO.C09.assemble_value', 'value = sum of the assets\' values on their blocks'),
     ('EAO.Properties.C09', 'EAO.C09.assemble_perm', 'for a permutation of the asset list every feasible point rearranges block-wise into a feasible point of the permuted problem with the same value and the same block per asset (assets whose rows mention only their own variables)'),
 ]
-COMPONENTS = ['hypotheses of the assembly theorems (well-formedness of asset problems) evaluated on every captured real asset problem', 'assemble on captured asset problems for the original, the renamed, the permuted and the renamed-in-place portfolio (hypotheses also on the latter)']
+COMPONENTS = ['assemble also on the captured asset problems of the portfolios that went through a door (json, set_param) and of the nested streams', 'hypotheses of the assembly theorems (well-formedness of asset problems) evaluated on every captured real asset problem', 'assemble on captured asset problems for the original, the renamed, the permuted and the renamed-in-place portfolio (hypotheses also on the latter)']
 RULE = ('random portfolios, each re-run (a) under an adversarial injective renaming of assets and nodes (numeric names, prefixes/suffixes of each other, names containing " (", "_internal_", "nan") and (b) under a random permutation of the assets, '
         '(c) rename-inplace: the objects are built once under the original names and, as drawn, optimised / set up / left alone; then the very same Node and Asset objects (incl. base assets of scaled and wrapped assets of structured assets) '
         'get the names of (a) by assignment to .name and are given to a new Portfolio (as drawn: permuted, on a new time grid object); same comparison as for (a); '
@@ -26,7 +26,21 @@ RULE = ('random portfolios, each re-run (a) under an adversarial injective renam
         'reported cash flow per asset = cost of its own variables; '
         'LinkedAsset stream (own generator gen_linked): small MIP portfolios around a LinkedAsset wrapping a CHPAsset/Plant with on-variable and a second asset (plant, contract at the power node or at an internal node behind a transport), '
         'link given by names or by objects, all wrapped assets on the same window (none / the wrapper\'s / a common own one); variants rename, permute, rename+permute, permute-inner, rename-inplace; same oracle; '
-        'probe linked-inner-order: one of the two linked wrapped assets gets a shorter window (drawn: which, start or end, which one comes last); set up in the drawn and in the reversed inner order, outcomes compared (finding F-09e)')
+        'probe linked-inner-order: one of the two linked wrapped assets gets a shorter window (drawn: which, start or end, which one comes last); set up in the drawn and in the reversed inner order, outcomes compared (finding F-09e); '
+        'confusable names (comp/c09wide.py; drawn for about half of the cases of stream gen, fewer / more in the other streams, instead of the adversarial pool): the node names of a case come from ONE family around one drawn stem - '
+        'blanks around (blank, two blanks, tab, no-break space, em space, newline; leading / trailing / both), blanks inside, case only, unicode spelling (composed / decomposed accents, sharp s / ss, ligature, dotted and dotless i, '
+        'Ohm / Omega, Kelvin sign, micro sign / mu), numbers (1, 1.0, 01, 1e0, +1, blank + 1, full-width digits, 0x1, ...), literals (nan, None, null, true, inf, <NA>, ...) - the asset names from one family as well (as drawn the same one, an asset may bear the name of a node); '
+        'variant rename-door (one door drawn per case; stream net: all three): the renamed portfolio goes through a door of the public API before it is optimised - json: built in code, to_json, load_from_json (string or file; as drawn with its own time grid inside and set up without one), '
+        'set_param: built under the ORIGINAL names and renamed name by name with io.set_param (every asset and node name of the parameter tree, drawn order, over temporary names when a new name is an old one or when drawn), '
+        'run_from_json: to_json + run_from_json (only the output tables come back: status, value, dispatch reported under every (asset, node) label of the renamed portfolio and balanced per node and step, a cash flow reported under every asset name, cash flows sum to the value); '
+        'json / set_param compared exactly like the variant rename; a difference is blamed on the names only if the portfolio under its ORIGINAL names passes the same door without that kind of difference (otherwise feature door-changes-original); '
+        'variant permute-inner generalised: the wrapped assets of EVERY structured / linked asset at any level of nesting (also inside the base asset of a scaled asset, inside a structured asset) get another order (reversed or drawn), and the comparison is the full one '
+        '(solution carried back variable by variable through the layout of the blocks = sizes of the problems of the assets at every level; reported dispatch and cash flow per outer asset; second stage); '
+        'price sample (variants with another order of assets, every variant of stream nest): the cost vector for another set of prices (setup_optim_problem(costs_only=True), what create_cost_samples returns) of variant and original; where they differ under the variable matching: '
+        'cash flow per asset of the SAME dispatch (first solution of the original) under the sample, then the optimal values of both problems with the sample costs; '
+        'stream nest (gen_nested, 60 quick): wrappers around wrappers - ScaledAsset with fix costs (min_scale 0 / 0.5 / = max_scale) over a StructuredAsset, over a StructuredAsset that wraps a further ScaledAsset / StructuredAsset, a ScaledAsset inside a StructuredAsset, '
+        'a StructuredAsset inside a StructuredAsset, a ScaledAsset over a LinkedAsset (wrapped assets on one window) - the wrapped assets with their own, differing windows (start only, end only, inside, straddling), wrappers with own windows as drawn; all variants; '
+        'stream net (gen_network, 60 quick): LP portfolios over 2..4 nodes with a market per node (contracts, transports, storages, multi-commodity, scaled, structured), mostly confusable names, all three doors, no second stage')
 ASSUMPTIONS = ['ties between optimal solutions are allowed: solutions are compared by transporting them into the other problem (feasibility + value), not entry by entry',
                'second stage (re-optimisation with fix_time_window): original and variant are pinned to the SAME first-stage solution (that of the original, relabelled), so that ties of the first stage do not '
                'enter; WHICH variables a window pins is C15\'s subject - here only that it does not depend on names and order; a set-up with fix_time_window that raises for the original AND for the variant is not reported here',
@@ -35,8 +49,11 @@ ASSUMPTIONS = ['ties between optimal solutions are allowed: solutions are compar
                'rename-inplace with a LinkedAsset: LinkedAsset.__init__ turns the two nodes of its link into name strings (for a node that is not one of its own nodes: <own name>_internal_<node name>), and set-up raises IndexError '
                'when these no longer match; renaming the NODES of a LinkedAsset (own and wrapped) in place is therefore out of scope and these nodes keep their names in this variant (other nodes and all assets are renamed); '
                'TODO, decision pending: for the same reason a LinkedAsset whose link names an internal node keeps its OWN name in this variant. The rebuilt variants (rename, rename+permute) rename everything',
+               'rename-door: what a door does to a portfolio WHATEVER it is called (e.g. a LinkedAsset cannot be loaded from JSON: no door variant in the LinkedAsset streams) is the subject of C11: the same door is passed with the original names, '
+               'and only kinds of difference that do not occur there are reported (the others are counted as feature door-changes-original); run_from_json returns tables only, so the per-asset comparison there is: a column under every new label, balance per node, cash flows sum to the value (no comparison of columns that ties may change)',
+               'price sample: a cost vector (costs_only) whose length differs from the number of variables of the ORIGINAL portfolio is not used (feature sample:original-length-differs; C17\'s subject); cost vectors that differ without any effect on cash flows of the first solution or on the optimal value under the sample are counted (feature sample:costs-differ-without-effect), not reported',
                'LinkedAsset stream: all wrapped assets live on the same window; with differing windows the set-up depends on the order of the wrapped assets (probe linked-inner-order, finding F-09e) - the other variants are not run there']
-EXPLANATION = 'theorems about the model assemble; metamorphic oracle on the real code (optimisation, and re-optimisation with a fixed time window)'
+EXPLANATION = 'theorems about the model assemble; metamorphic oracle on the real code (optimisation, re-optimisation with a fixed time window, price samples through costs_only) under renaming (in code, in place, through JSON / run_from_json / set_param; confusable names) and permutation (outer list and wrapped assets at any level of nesting)'
 
 # second stage (re-optimisation with fix_time_window) of every variant; development switch
 STAGE2 = True
@@ -117,7 +134,7 @@ def draw_wide(r2, s, names_prob=0.5, door=True):
 def wide_scenarios(seed, tier):
     """streams 'nest' (wrappers around wrappers whose wrapped assets live on different windows) and 'net' (cheap networks with a
     market per node; every door)"""
-    n, m = (70, 70) if tier == 'quick' else (400, 400)
+    n, m = (60, 60) if tier == 'quick' else (400, 400)
     rnd = random.Random(seed * 7919 + 9009)
     for i in range(n):
         r2 = random.Random(rnd.getrandbits(48))
@@ -133,6 +150,7 @@ def wide_scenarios(seed, tier):
         finish_case(r2, s)
         draw_wide(r2, s, names_prob=0.8)
         s['doors'] = 'all'
+        s.pop('stage2', None)       # (the price sample 'prices2' stays)
         yield 'net%d' % i, s
 
 
@@ -234,6 +252,12 @@ def var_perm(rv, rec, order):
     order None = variant 'permute-inner': the outer order is the same and the variables of a wrapper are matched through the
     wrapped asset they belong to (column 'internal_asset' of the wrapper's own mapping; each wrapped asset keeps its own layout).
     None when the blocks do not match."""
+    if order is None:
+        # wrapped assets in another order at any level of nesting: the layout of every block from the sizes of the problems of
+        # the assets inside it (wide.layout); the mapping column 'internal_asset' (first level only) is the fallback
+        sg = wide.nested_sigma(rv, rec)
+        if sg is not None:
+            return sg
     bv = pf.asset_blocks(rv)
     bo = pf.asset_blocks(rec)
     av = rv['portf'].assets
@@ -420,16 +444,42 @@ def rename_scn(scn, amap, nmap):
     return s
 
 
-def setup_rec(scn):
-    """pf.setup_mono with the builder of this file"""
-    if not has_linked(scn):
-        return pf.setup_mono(scn)
-    portf, tg, prices, nodes = build(scn)
+def setup_portf(portf, tg, prices, scn):
+    """set up a portfolio object, keeping what every outermost asset returned (impl.Capture) and the size of the problem of every
+    asset at any level of nesting (wide.DeepSizes); tg None: the portfolio's own grid"""
     rec = {'portf': portf, 'tg': tg, 'prices': prices, 'scn': scn}
-    with impl.Quiet(), impl.Capture(portf) as cap:
+    with impl.Quiet(), wide.DeepSizes(portf) as ds, impl.Capture(portf) as cap:
         rec['op'] = portf.setup_optim_problem(prices, tg)
     rec['captured'] = {k: v[-1] for k, v in cap.caught.items()}
+    rec['sizes'] = ds.sizes
+    if tg is None:
+        rec['tg'] = portf.timegrid
     return rec
+
+
+def setup_rec(scn):
+    """pf.setup_mono with the builder of this file"""
+    portf, tg, prices, nodes = build(scn)
+    return setup_portf(portf, tg, prices, scn)
+
+
+def setup_door(base, amap, nmap, opts, named):
+    """variants 'rename-door': the renamed portfolio (named False: the portfolio under its original names) taken through a door of
+    the public API before it is set up: 'json' = built in code under the new names, to_json, load_from_json (string or file; as
+    drawn with its own time grid inside); 'set_param' = built under the ORIGINAL names and renamed name by name with io.set_param"""
+    am, nm = (amap, nmap) if named else ({}, {})
+    sv = rename_scn(base, am, nm)
+    if opts['door'] == 'json':
+        portf, tg, prices, nodes = build(sv)
+        if opts.get('own_grid'):
+            portf.set_timegrid(tg)
+        with impl.Quiet():
+            portf2 = wide.dump_load(portf, opts)
+        return setup_portf(portf2, None if opts.get('own_grid') else tg, prices, sv)
+    portf, tg, prices, nodes = build(base)
+    with impl.Quiet():
+        portf2 = wide.rename_by_set_param(portf, am, nm, opts)
+    return setup_portf(portf2, tg, prices, sv)
 
 
 def transport_back(rec_var, rec_orig, order):
@@ -464,9 +514,10 @@ def rename_objects(portf, nodes, amap, nmap):
     # a LinkedAsset keeps the NAMES of the two nodes of its link as strings from its construction: renaming its nodes (own and
     # wrapped) in place is out of scope (ASSUMPTIONS); nodes that no LinkedAsset touches are renamed
     keep = set()
-    for a in portf.assets:
+    everyone = wide.walk_assets(portf.assets)       # (LinkedAssets at any level of nesting, e.g. as the base asset of a scaled asset)
+    for a in everyone:
         if isinstance(a, LinkedAsset):
-            keep |= set(id(n) for n in a.nodes) | set(id(n) for x in a.portfolio.assets for n in x.nodes)
+            keep |= set(id(n) for n in a.nodes) | set(id(n) for x in wide.walk_assets(a.portfolio.assets) for n in x.nodes)
     used = set(n.name for n in nodes.values() if id(n) in keep)     # (names stay distinct: a new name that a kept node bears is varied)
     for n in nodes.values():
         if id(n) not in keep:
@@ -476,7 +527,7 @@ def rename_objects(portf, nodes, amap, nmap):
             used.add(new)
             n.name = new
     seen = set()
-    kept_assets = set(a.name for a in portf.assets if isinstance(a, LinkedAsset) and link_is_internal(a))
+    kept_assets = set(a.name for a in everyone if isinstance(a, LinkedAsset) and link_is_internal(a))
 
     def ren(a):
         if id(a) in seen:
@@ -577,18 +628,28 @@ def probe_linked_inner_order(scn, drv):
     return r
 
 
+INFO_KEYS = ('amap', 'nmap', 'perm', 'inplace', 'linked', 'stage2', 'prices2', 'iperm', 'door', 'doors', 'names', 'nested', 'stream')
+
+
 def run_case(scn, drv):
     r = {'evaluated': 1, 'nontrivial': False, 'features': [], 'disagreements': [], 'violations': []}
     feats = r['features']
     if scn.get('probe') == 'linked-inner-order':
         return probe_linked_inner_order(scn, drv)
-    base = {k: v for k, v in scn.items() if k not in ('amap', 'nmap', 'perm', 'inplace', 'linked', 'stage2', 'prices2')}
+    base = {k: v for k, v in scn.items() if k not in INFO_KEYS}
     for a in base['assets']:
         feats.append('asset:' + a['type'])
         if a['type'] == 'LinkedAsset':
             feats.append('linked:window=%s' % scn.get('linked', {}).get('window'))
             feats.append('linked:refs=%s' % a.get('refs'))
             feats.append('linked:node1=%s' % ('internal' if a['args']['asset1_variable'][2] not in a['nodes'] else 'external'))
+    if scn.get('stream'):
+        feats.append('stream:%s' % scn['stream'])
+    if scn.get('nested'):
+        feats.append('nested:%s' % scn['nested'])
+    if scn.get('names'):
+        feats.append('names:nodes=%s' % scn['names'].get('nodes'))
+        feats.append('names:assets=%s' % scn['names'].get('assets'))
     try:
         rec = setup_rec(base)
     except Exception as e:
@@ -602,26 +663,31 @@ def run_case(scn, drv):
         feats.append('unsolved:' + rec['res'])
     V = None if isinstance(rec['res'], str) else float(rec['res'].value)
     nA = len(base['assets'])
-    variants = [('rename', rename_scn(base, scn['amap'], scn['nmap']), list(range(nA)))]
+    ident = list(range(nA))
+    nested = scn.get('stream') == 'nest'
+    variants = [('rename', rename_scn(base, scn['amap'], scn['nmap']), ident)]
     sp_ = copy.deepcopy(base)
     sp_['assets'] = [base['assets'][i] for i in scn['perm']]
     variants.append(('permute', sp_, list(scn['perm'])))
     both = rename_scn(sp_, scn['amap'], scn['nmap'])
     variants.append(('rename+permute', both, list(scn['perm'])))
-    if any(is_wrapper(a) and len(a.get('inner', [])) >= 2 for a in base['assets']):
-        # the order of the assets INSIDE a structured asset is as irrelevant as the order in the portfolio (value only: the
-        # variable layout inside the wrapper changes)
-        si = copy.deepcopy(base)
-        for a in si['assets']:
-            if is_wrapper(a):
-                a['inner'] = list(reversed(a['inner']))
-        variants.append(('permute-inner', si, None))
+    if any(wide.has_permutable(a) for a in base['assets']):
+        # the order of the assets INSIDE a structured asset - at any level of nesting: wrapped by the base asset of a scaled asset,
+        # by a structured asset inside a structured asset - is as irrelevant as the order in the portfolio
+        variants.append(('permute-inner', wide.permute_inner(base, scn.get('iperm')), None))
     # the same objects renamed in place (not rebuilt from the scenario): names that an object kept from its construction or from
     # an earlier set-up show only here
     ipo = scn.get('inplace') or {'first': 'optimise', 'new_grid': False, 'permute': False}
     ip_perm = list(scn['perm']) if ipo.get('permute') else None
-    variants.append(('rename-inplace', ('inplace', ipo, ip_perm), ip_perm or list(range(nA))))
+    variants.append(('rename-inplace', ('inplace', ipo, ip_perm), ip_perm or ident))
     feats.append('inplace:first=%s' % ipo.get('first'))
+    # the renamed portfolio taken through a door of the public API (JSON string / file, run_from_json, set_param)
+    doors = []
+    if scn.get('door'):
+        if scn.get('doors') == 'all':
+            doors = [dict(scn['door'], door=d) for d in ('json', 'set_param', 'run_from_json')]
+        else:
+            doors = [dict(scn['door'])]
 
     def viol(msg, **facts):
         r['violations'].append({'oracle': 'names_and_order', 'detail': msg, 'facts': facts})
@@ -631,8 +697,8 @@ def run_case(scn, drv):
     # problems are the same problem up to the relabelling, whatever ties the first stage had); then the comparison of the first stage
     st2 = scn.get('stage2') if (STAGE2 and V is not None) else None
     s2o = None
+    x1 = None if V is None else np.array(rec['res'].x, dtype=float)
     if st2 is not None:
-        x1 = np.array(rec['res'].x, dtype=float)
         s2o = run_stage2(rec, x1, st2, scn.get('prices2', {}), output=False)
         r['evaluated'] += 1
         feats.append('stage2:window=%s/%s' % (st2['mode'], st2['form']))
@@ -646,10 +712,9 @@ def run_case(scn, drv):
             m_ = s2o['rec']['mask']
             feats.append('stage2:pinned-steps=%s' % ('all' if m_.all() else 'some'))
 
-    def second_stage(tag, rv, order):
+    def second_stage(tag, rv, order, sigma, viol):
         if s2o is None:
             return
-        sigma = var_perm(rv, rec, order)
         if sigma is None:
             feats.append('stage2:no-variable-matching:' + tag)
             return
@@ -709,43 +774,141 @@ def run_case(scn, drv):
         except Exception as e:
             viol('%s: reading the output raises %s' % (where, type(e).__name__), variant=tag, what='stage2_output_raises', stage=2)
 
-    for tag, sv, order in variants:
+    # ---- price samples: the cost vector the portfolio hands out for another set of prices (setup_optim_problem(costs_only=True),
+    # create_cost_samples - what robust / stochastic optimisation is fed with) leads to results like any other: the cash flow per
+    # asset of a given dispatch under the sample and the optimal value under the sample depend neither on names nor on the order
+    sample = {'prices': None, 'c': None, 'tried': False}
+
+    def sample_costs(rr):
+        if sample['prices'] is None:
+            raw = scn.get('prices2', {})
+            sample['prices'] = {k: (np.asarray(raw[k], dtype=float) if k in raw and np.shape(raw[k]) == np.shape(v) else np.array(v, dtype=float))
+                                for k, v in rec['prices'].items()}
+        with impl.Quiet():
+            return np.atleast_1d(np.asarray(rr['portf'].setup_optim_problem(sample['prices'], rr['tg'], costs_only=True), dtype=float))
+
+    def sample_stage(tag, rv, order, sigma, viol):
+        n = len(rec['op'].c)
+        if not sample['tried']:
+            sample['tried'] = True
+            try:
+                sample['c'] = sample_costs(rec)
+            except Exception as e:
+                feats.append('sample:original-raises:' + impl.err_class(e))
+            if sample['c'] is not None and len(sample['c']) != n:
+                feats.append('sample:original-length-differs')      # (cost vector of another length than the problem: C17's subject)
+                sample['c'] = None
+        co = sample['c']
+        if co is None or sigma is None:
+            return
         r['evaluated'] += 1
         try:
-            if isinstance(sv, tuple):
+            cv = sample_costs(rv)
+        except Exception as e:
+            viol('%s: the cost vector for another price sample (costs_only) raises %s (%s) although that of the original portfolio is built' % (tag, type(e).__name__, str(e)[:100]),
+                 variant=tag, what='sample_raises')
+            return
+        if len(cv) != n:
+            viol('%s: the cost vector for another price sample (costs_only) has %d entries, that of the original portfolio %d' % (tag, len(cv), n), variant=tag, what='sample_size')
+            return
+        tolc = 1e-9 * max(1.0, float(np.abs(co).max()) if n else 1.0)
+        if n == 0 or float(np.abs(cv - co[sigma]).max()) <= tolc:
+            feats.append('sample:same-costs')
+            return
+        j = int(np.argmax(np.abs(cv - co[sigma])))
+        if V is not None:
+            # (a) the dispatch x1 (first solution of the original, carried over): cash flow per asset under the sample
+            xv = x1[sigma]
+            bv = pf.asset_blocks(rv)
+            bo = pf.asset_blocks(rec)
+            ao = rec['portf'].assets
+            for k, a in enumerate(rv['portf'].assets):
+                lo, hi = bv[a.name][0]
+                lo2, hi2 = bo[ao[order[k] if order is not None else k].name][0]
+                cash_v = -float(np.dot(cv[lo:hi], xv[lo:hi]))
+                cash_o = -float(np.dot(co[lo2:hi2], x1[lo2:hi2]))
+                if abs(cash_v - cash_o) > 1e-6 * max(1.0, abs(cash_o), abs(V)):
+                    viol('%s: under another price sample (cost vector from costs_only) the cash flow of asset %r for the SAME dispatch is %.8g, in the original portfolio %.8g (cost of variable %d: %.8g vs %.8g)' % (
+                        tag, a.name, cash_v, cash_o, j, cv[j], co[sigma][j]), variant=tag, what='sample_dcf', asset_type=type(a).__name__)
+                    return
+            # (b) the optimal values under the sample
+            vals = []
+            for rr, cc in ((rv, cv), (rec, co)):
+                o2 = copy.copy(rr['op'])
+                o2.c = np.array(cc, dtype=float)
+                q = solve_only({'op': o2})
+                vals.append(None if isinstance(q['res'], str) else float(q['res'].value))
+            if (vals[0] is None) != (vals[1] is None):
+                viol('%s: under another price sample (cost vector from costs_only) the optimisation status differs (%s vs %s)' % (tag, vals[0], vals[1]), variant=tag, what='sample_status')
+                return
+            if vals[0] is not None and abs(vals[0] - vals[1]) > 2e-6 * max(1.0, abs(vals[1])):
+                viol('%s: under another price sample (cost vector from costs_only) the optimal value is %.8g, for the original portfolio %.8g' % (tag, vals[0], vals[1]), variant=tag, what='sample_value')
+                return
+        feats.append('sample:costs-differ-without-effect:' + tag)
+
+    def check(tag, sv, order, viol, light=False):
+        """one variant against the original: raises, size, status, value, the solution carried back, what is reported; light: without
+        the second stage and the price sample"""
+        r['evaluated'] += 1
+        try:
+            if isinstance(sv, tuple) and sv[0] == 'inplace':
                 rv = setup_inplace(base, scn['amap'], scn['nmap'], sv[1], sv[2])
+            elif isinstance(sv, tuple) and sv[0] == 'door':
+                rv = setup_door(base, scn['amap'], scn['nmap'], sv[1], sv[2])
             else:
                 rv = setup_rec(sv)
         except Exception as e:
             viol('%s: set-up raises %s (%s) although the original portfolio sets up' % (tag, type(e).__name__, str(e)[:120]), variant=tag, what='raises')
-            continue
-        if isinstance(sv, tuple):
+            return
+        if isinstance(sv, tuple) and sv[0] == 'inplace':
             # asset problems of objects with a past: the hypotheses of the assembly theorems once more (e.g. dispatch rows only at
             # the asset's own - present - nodes)
             r['disagreements'] += pf.hyp_wf(rv)
         r['disagreements'] += pf.corr_assemble(rv, drv)
         # problems must have the same numbers up to the block permutation
         if len(rv['op'].c) != len(rec['op'].c) or len(rv['op'].cType) != len(rec['op'].cType):
-            viol('%s: problem has %d variables / %d rows, original %d / %d' % (tag, len(rv['op'].c), len(rv['op'].cType), len(rec['op'].c), len(rec['op'].cType)), variant=tag, what='size')
-            continue
+            msg = '%s: problem has %d variables / %d rows, original %d / %d' % (tag, len(rv['op'].c), len(rv['op'].cType), len(rec['op'].c), len(rec['op'].cType))
+            # what that means for the results, where it can be said: status and optimal value of the variant
+            try:
+                solve_only(rv)
+                if isinstance(rv['res'], str) != isinstance(rec['res'], str):
+                    msg += '; optimisation status %s vs %s' % (rv['res'] if isinstance(rv['res'], str) else 'successful', rec['res'] if isinstance(rec['res'], str) else 'successful')
+                elif V is not None and abs(float(rv['res'].value) - V) > 2e-6 * max(1.0, abs(V)):
+                    viol(msg + '; optimal value %.8g, original %.8g' % (float(rv['res'].value), V), variant=tag, what='value', size_differs=True)
+                    return
+            except Exception:
+                pass
+            viol(msg, variant=tag, what='size')
+            return
         pf.solve_rec(rv)
         if isinstance(rv['res'], str) != isinstance(rec['res'], str):
             viol('%s: optimisation status differs (%s vs %s)' % (tag, rv['res'] if isinstance(rv['res'], str) else 'successful', rec['res'] if isinstance(rec['res'], str) else 'successful'), variant=tag, what='status')
-            continue
+            return
         if V is None:
-            continue
+            return
         Vv = float(rv['res'].value)
         tol = 2e-6 * max(1.0, abs(V))
         if abs(Vv - V) > tol:
             viol('%s: optimal value %.8g, original %.8g' % (tag, Vv, V), variant=tag, what='value')
-            continue
-        second_stage(tag, rv, order)
+            return
+        sigma = var_perm(rv, rec, order)
+        if not light:
+            second_stage(tag, rv, order, sigma, viol)
+            if nested or order is None or list(order) != ident:
+                sample_stage(tag, rv, order, sigma, viol)
         if order is None:
-            continue
-        x = transport_back(rv, rec, order)
+            # wrapped assets in another order: the solution carried back variable by variable
+            if sigma is None:
+                feats.append('no-variable-matching:' + tag)
+                return
+            x = np.zeros(len(rec['op'].c))
+            x[sigma] = rv['res'].x
+            order = ident
+        else:
+            x = transport_back(rv, rec, order)
         if x is None:
             viol('%s: an asset has a different number of variables' % tag, variant=tag, what='size')
-            continue
+            return
         worst, what = pf.feasibility_violation(rec['op'], x)
         val = -float(np.dot(rec['op'].c, x))
         if worst > 1e-5 or abs(val - V) > tol:
@@ -773,6 +936,70 @@ def run_case(scn, drv):
                     break
         except Exception as e:
             viol('%s: reading the output raises %s' % (tag, type(e).__name__), variant=tag, what='output_raises')
+
+    def check_run_json(tag, opts, named, viol):
+        """door run_from_json: only the output tables come back.  Stated on them: optimisation successful as for the original, same
+        value, dispatch reported under every (asset, node) label of the renamed portfolio and balanced at every node and step, a
+        cash flow reported for every asset, all cash flows together = the value"""
+        r['evaluated'] += 1
+        am, nm = (scn['amap'], scn['nmap']) if named else ({}, {})
+        portf, tg, prices, nodes = build(rename_scn(base, am, nm))
+        try:
+            out = wide.run_json(portf, prices, tg)
+        except Exception as e:
+            viol('%s: run_from_json raises %s (%s) although the original portfolio, set up in code, is optimised' % (tag, type(e).__name__, str(e)[:120]), variant=tag, what='raises')
+            return
+        if (out is None) != (V is None):
+            viol('%s: optimisation status differs (%s vs %s)' % (tag, 'not successful' if out is None else 'successful', 'not successful' if V is None else 'successful'), variant=tag, what='status')
+            return
+        if out is None:
+            return
+        val = float(out['summary'].loc['value', 'Values'])
+        tol = 2e-6 * max(1.0, abs(V))
+        if abs(val - V) > tol:
+            viol('%s: optimal value %.8g, original %.8g' % (tag, val, V), variant=tag, what='value')
+            return
+        cols = impl.disp_cols(portf)
+        missing = [c for c in cols.values() if c not in out['dispatch'].columns]
+        if missing:
+            viol('%s: no dispatch reported under the label %r (columns %s)' % (tag, missing[0], [str(c) for c in out['dispatch'].columns][:8]), variant=tag, what='reported_dispatch')
+            return
+        try:
+            vb, _ = pf.orc_nodal_balance({'out': out, 'portf': portf}, tag=tag)
+            for v_ in vb[:1]:
+                viol('%s: %s' % (tag, v_['detail']), variant=tag, what='reported_dispatch')
+        except Exception as e:
+            viol('%s: reading the dispatch output raises %s' % (tag, type(e).__name__), variant=tag, what='output_raises')
+        dcf = out['DCF']
+        lost = [a.name for a in portf.assets if a.name not in dcf.columns]
+        if lost:
+            viol('%s: no cash flow reported for asset %r (columns %s)' % (tag, lost[0], [str(c) for c in dcf.columns][:8]), variant=tag, what='dcf')
+        elif abs(float(np.nansum(np.asarray(dcf[[a.name for a in portf.assets]].values, dtype=float))) - V) > 1e-6 * max(1.0, abs(V), float(np.nansum(np.abs(np.asarray(dcf.values, dtype=float))))):
+            viol('%s: the cash flows reported for the assets sum to %.8g, value %.8g' % (tag, float(np.nansum(np.asarray(dcf.values, dtype=float))), V), variant=tag, what='dcf')
+
+    for tag, sv, order in variants:
+        check(tag, sv, order, viol)
+
+    for opts in doors:
+        # names are blamed only for what the door does not do to the portfolio under its ORIGINAL names as well (what a door does
+        # to a portfolio whatever it is called is the subject of C11; recorded as a feature)
+        d = opts['door']
+        tag = 'rename-door:%s' % (d + ('(file)' if d == 'json' and opts.get('file') else '') + ('(own grid)' if d == 'json' and opts.get('own_grid') else ''))
+        feats.append('door:' + d)
+        got, ref = [], []
+        coll = lambda acc: (lambda msg, **facts: acc.append({'oracle': 'names_and_order', 'detail': msg, 'facts': dict(facts, door=d)}))
+        if d == 'run_from_json':
+            check_run_json(tag, opts, True, coll(got))
+            if got:
+                check_run_json(tag + ' [original names]', opts, False, coll(ref))
+        else:
+            check(tag, ('door', opts, True), ident, coll(got), light=True)
+            if got:
+                check(tag + ' [original names]', ('door', opts, False), ident, coll(ref), light=True)
+        if ref:
+            feats.append('door-changes-original:%s:%s' % (d, ref[0]['facts'].get('what')))
+        whats = set(v['facts'].get('what') for v in ref)
+        r['violations'] += [v for v in got if v['facts'].get('what') not in whats]
     r['nontrivial'] = V is not None and nA >= 3 and abs(V) > 1e-9
     r['observed'] = {'value': V, 'assets': nA}
     return r
